@@ -368,3 +368,27 @@ func verifC08TopicDeleteFiles() {
 	verifrt.Assert(t2 != t && t2.Depth() == 0 && len(t2.channelMap) == 0, "re-created-topic-starts-empty")
 	verifrt.Reach("deleted-a-drained-topic-with-files", hadTopicFiles && hadChanFiles && tb.Depth() == 0)
 }
+
+// The last two consumers of an ephemeral channel leave at the same moment (two connections
+// closing: Channel.RemoveClient from two goroutines), every interleaving within the preemption
+// bound: afterwards the channel has no consumers and its auto-delete ran exactly once - an
+// ephemeral channel never lives on without consumers.
+func VerifC08_LastTwoConsumersLeaveTogether() {
+	o := verifOpts()
+	o.MemQueueSize = 1
+	n := verifShellNSQD(o)
+	verifrt.StubNative("(*github.com/nsqio/nsq/nsqd.NSQD).Notify", verifNotifyNop)
+	deleted := 0
+	var c *Channel
+	verifrt.Atomic(func() {
+		c = NewChannel("t", "ch#ephemeral", n, func(*Channel) { deleted++ })
+		c.AddClient(1, &verifConsumer{})
+		c.AddClient(2, &verifConsumer{})
+	})
+	verifrt.Go("leave-1", func() { c.RemoveClient(1) })
+	verifrt.Go("leave-2", func() { c.RemoveClient(2) })
+	verifrt.Join()
+	verifrt.Assert(len(c.clients) == 0, "both-consumers-removed")
+	verifrt.Assert(deleted == 1, "ephemeral-channel-auto-deleted-exactly-once-when-the-last-consumers-leave-together")
+	verifrt.Reach("both-left", len(c.clients) == 0)
+}
